@@ -883,7 +883,7 @@ def interpret(case, ctx):
             elif op == "qupdate":
                 k, c = step["k"], (step["c"] if meta.has_ck else None)
                 have = sorted(key for key in sh.all_views() if key[1] is not None or not meta.has_ck)
-                if have and step["seed"] % 4 != 0:
+                if have and step["seed"] % 4 != 0 and batch is None:      # (a batch keeps its operations on distinct partitions)
                     k, c = have[step["seed"] % len(have)]
                     # partial collection operations are most telling on rows that already hold elements
                     wanted = [a for a, cop_, _n in step["sets"] if a in _COLLS and a in meta.attrs and cop_ not in ("set", "none")]
@@ -1236,4 +1236,4 @@ def parts(tier):
     cqlterm.self_test()
     cqlparse.self_test()
     cqlinterp.self_test()
-    return [hyp_part("histories", s_case, interpret, tier, quick=450, thorough=2000)]
+    return [hyp_part("histories", s_case, interpret, tier, quick=700, thorough=2000)]
